@@ -98,7 +98,15 @@ func c10vars(c *h.Ctx, idx int, staged bool, assign string, r *h.Rand) {
 	for _, k := range sortedKeys(defs[1]) {
 		args = append(args, "--set", k+"="+defs[1][k])
 	}
-	args = append(args, "-o", "raw", target)
+	// --set is a flag of taskctl itself: it applies whichever way the target is then named
+	switch idx % 4 {
+	case 1:
+		args = append(args, "-o", "raw", "run", target)
+	case 2:
+		args = append(args, "-o", "raw", "run", map[bool]string{true: "pipeline", false: "task"}[staged], target)
+	default:
+		args = append(args, "-o", "raw", target)
+	}
 	res := tc{Dir: real}.run(c, args...)
 	c.Eval(1)
 	got := lines(h.ReadFile(trace))
@@ -308,6 +316,9 @@ func c10undef(c *h.Ctx, idx, n, pos int, where string, allow bool) {
 		t.Set("before", []interface{}{fmt.Sprintf("printf 'before[%%s]\\n' '{{.NotDefinedAnywhere}}' >> '%s'", trace)})
 	case "dir":
 		t.Set("dir", real+"/{{.NotDefinedAnywhere}}")
+	case "condition":
+		// the task's condition is a command too: it cannot be asked, which is not the same as answering "no"
+		t.Set("condition", []string{"test \"{{.NotDefinedAnywhere}}\" = release", "test -n \"{{.NotDefinedAnywhere}}\"", "true {{.NotDefinedAnywhere}}"}[idx%3])
 	}
 	cfg := gen.OM{{K: "tasks", V: gen.OM{{K: "t", V: t}}}}
 	h.WriteFile(real+"/tasks.yaml", gen.YAML(cfg))
@@ -335,7 +346,7 @@ func c10undef(c *h.Ctx, idx, n, pos int, where string, allow bool) {
 }
 
 func c10(c *h.Ctx) {
-	c.Rule = "in-process: 4..10 parallel stages, 2..5 commands each, every command a distinct template over the stage's own variables, under the real scheduler and runner, plain and under the race detector (each stage must execute its own text rendered with its own values); CLI: every non-empty subset of {config variables, --set, task, stage} (15, stage run) and of the first three (7, direct run) defines its own name, values ascending / descending / shuffled; built-ins rendered; one task shared by a chain of 2..4 stages, each stage defining its own subset of the names (what a stage renders is decided by the levels as that stage has them); argument vectors of 0..5 words from a pool containing target names, a=b, -v, --x, -- after 1..2 targets in two invocation forms; undefined variable at every position of 1..4 commands, in before and in dir, with/without allow_failure. non-trivial = every distinct (name, winner) / argument vector with >=1 word / undefined-variable position"
+	c.Rule = "in-process: 4..10 parallel stages, 2..5 commands each, every command a distinct template over the stage's own variables, under the real scheduler and runner, plain and under the race detector (each stage must execute its own text rendered with its own values); CLI: every non-empty subset of {config variables, --set, task, stage} (15, stage run) and of the first three (7, direct run) defines its own name, values ascending / descending / shuffled; built-ins rendered; one task shared by a chain of 2..4 stages, each stage defining its own subset of the names (what a stage renders is decided by the levels as that stage has them); argument vectors of 0..5 words from a pool containing target names, a=b, -v, --x, -- after 1..2 targets in two invocation forms; undefined variable at every position of 1..4 commands, in before, in dir and in the task's condition, with/without allow_failure. non-trivial = every distinct (name, winner) / argument vector with >=1 word / undefined-variable position"
 	c.Assumptions = []string{"the value of Root is not examined, only that it is defined", "argv with `--` before any target is outside the statement"}
 	var jobs []func()
 	idx := 0
@@ -368,7 +379,7 @@ func c10(c *h.Ctx) {
 				u++
 			}
 		}
-		for _, where := range []string{"before", "dir", "variable"} {
+		for _, where := range []string{"before", "dir", "variable", "condition"} {
 			i, n, where := u, n, where
 			jobs = append(jobs, func() { c10undef(c, i, n, 0, where, n%2 == 0) })
 			u++
